@@ -175,16 +175,17 @@ func packetIDOK(p []byte) bool {
 type monitor struct {
 	r *lib.Run
 
-	mu        sync.Mutex
-	byGen     map[string]int
-	byRefEnd  map[string]int
-	byLat     map[string]int
-	byCfg     map[string]int
-	judgedPl  int64
-	gateErrs  int64
-	gatePl    int64
-	fullEqual int64
-	nonMin    int64
+	mu            sync.Mutex
+	byGen         map[string]int
+	byRefEnd      map[string]int
+	byLat         map[string]int
+	byCfg         map[string]int
+	judgedPl      int64
+	gateErrs      int64
+	gatePl        int64
+	fullEqual     int64
+	nonMin        int64
+	nonMinClaimed int64
 }
 
 func (m *monitor) count(mp map[string]int, k string) {
@@ -225,6 +226,9 @@ func (m *monitor) judge(c *streamCase, g gateResult) frameref.Result {
 	}
 	if ref.NonMinimal {
 		atomic.AddInt64(&m.nonMin, 1)
+	}
+	if ref.NonMinimalClaimed {
+		atomic.AddInt64(&m.nonMinClaimed, 1)
 	}
 	for i, p := range judged {
 		if !packetIDOK(p) {
@@ -525,6 +529,28 @@ func (g *gen) claimedCase() (string, []byte) {
 		name = "claimed-varint-malformed"
 		body = [][]byte{{0x80}, {0xff, 0xff}, {0xff, 0xff, 0xff, 0xff, 0xff, 0x01, 1, 2}, {0x80, 0x80, 0x80, 0x80, 0x80, 0x80}}[g.rng.Intn(4)]
 	}
+	if kind >= 2 && kind <= 10 && g.rng.Intn(6) == 0 {
+		// re-spell a well-formed claimed size non-minimally (padded to 5 bytes, or one byte
+		// longer than needed); the value and therefore the verdict stay the same
+		if v, n, minimal, ok, _ := frameref.VarInt(body, 5); ok && minimal && n < 5 && v >= 0 {
+			pad := n + 1
+			if g.rng.Intn(2) == 0 {
+				pad = 5
+			}
+			var enc []byte
+			u := uint32(v)
+			for i := 0; i < pad; i++ {
+				b := byte(u & 0x7f)
+				u >>= 7
+				if i < pad-1 {
+					b |= 0x80
+				}
+				enc = append(enc, b)
+			}
+			body = append(enc, body[n:]...)
+			name += "/claimed-size-non-minimal"
+		}
+	}
 	s := frameref.Frame(pre, body)
 	if g.rng.Intn(3) == 0 {
 		t2, _ := g.validStream(2)
@@ -543,7 +569,14 @@ func (g *gen) uncompressedInCompressed() []byte {
 	if n < 0 {
 		n = 0
 	}
-	s = frameref.Frame(s, frameref.Uncompressed(g.payload(n)))
+	if g.rng.Intn(4) == 0 {
+		// the same frame with the zero "data length" spelled in 2..5 bytes (the frame's own
+		// length prefix stays minimal)
+		z := [][]byte{{0x80, 0x00}, {0x80, 0x80, 0x00}, {0x80, 0x80, 0x80, 0x00}, {0x80, 0x80, 0x80, 0x80, 0x00}, {0x80, 0x80, 0x80, 0x80, 0x10}}[g.rng.Intn(5)]
+		s = frameref.Frame(s, append(append([]byte{}, z...), g.payload(n)...))
+	} else {
+		s = frameref.Frame(s, frameref.Uncompressed(g.payload(n)))
+	}
 	if g.rng.Intn(2) == 0 {
 		t2, _ := g.validStream(2)
 		s = append(s, t2...)
@@ -857,6 +890,7 @@ func TestC02(t *testing.T) {
 	r.Set("gate_streams_ended_by_error", atomic.LoadInt64(&m.gateErrs))
 	r.Set("streams_fully_decided_and_equal", atomic.LoadInt64(&m.fullEqual))
 	r.Set("streams_with_non_minimal_varint_not_judged_for_equality", atomic.LoadInt64(&m.nonMin))
+	r.Set("streams_with_non_minimal_claimed_size_judged", atomic.LoadInt64(&m.nonMinClaimed))
 	r.Set("workers", workers)
 }
 
